@@ -211,7 +211,9 @@ def handleOracle (law : String) (args : List String) : Option String :=
     let dv ← replyOf dv; let ds ← replyOf ds
     match v, s, bytesOfR dv, bytesOfR ds with
     | .bytes v, .bytes s, some dv, some ds =>
-      let lv := lossy v; let ls := lossy s
+      -- the chars view of both strings (what `contains` / `ends_with` compare)
+      let lv := decodeLossy v; let ls := decodeLossy s
+      let dv := decodeLossy dv; let ds := decodeLossy ds
       let bothValid := isValid v && isValid s
       let swOK := match replyOf sw with
         | some (.ok (.bool b)) => C28.specStartsWith lv ls b
